@@ -522,8 +522,27 @@ class SymDomain(BaseDomain):
                 d.setitem(d._interp, out, Ellipsis, r, getattr(d, "_cur_node", None))
                 return out
             return g
+        def np_copyto(dst, src, **k):
+            kw_strict(k, "copyto")
+            if not isinstance(dst, SymArr):
+                raise Unsupported("np.copyto into a non-array")
+            d.setitem(d._interp, dst, Ellipsis, src, getattr(d, "_cur_node", None))
+        ns.__dict__["copyto"] = np_copyto
+
+        def np_tri(n, m=None, k=0, dtype=None):
+            n_ = _dim(n)
+            m_ = n_ if m is None else _dim(m)
+            isb = _is_bool_dtype(dtype)
+            out = mk((n_, m_), "real", fill=(False if isb else None))
+            for i in range(n_):
+                for j in range(m_):
+                    if j <= i + int(k):
+                        out[i, j] = True if isb else Poly.const(1)
+            return out
+        ns.__dict__["tri"] = np_tri
         for nm in ("square", "abs", "absolute", "sqrt", "negative", "conj", "conjugate", "exp", "sign", "real", "imag",
-                   "maximum", "minimum", "fmax", "fmin", "clip", "round", "around", "power", "divide", "true_divide"):
+                   "maximum", "minimum", "fmax", "fmin", "clip", "round", "around", "power", "divide", "true_divide",
+                   "concatenate", "hstack", "vstack", "stack", "column_stack"):
             if nm in ns.__dict__ and not isinstance(ns.__dict__[nm], (_UFunc, _ArithUFunc)):
                 ns.__dict__[nm] = with_out(ns.__dict__[nm])
         return ns
